@@ -339,6 +339,17 @@ func (ex *Exec) indexAddr(fr *Frame, x *ssa.IndexAddr) Value {
 	idx := ex.toInt64Term(ex.get(fr, x.Index).(*Term), x.Index.Type())
 	switch b := base.(type) {
 	case *SliceVal:
+		if b.symLen != nil {
+			inb := ex.tt.Ult(idx, b.symLen)
+			if !inb.IsTrue() && !ex.Decide(inb) {
+				ex.goPanicStr("runtime error: index out of range (slice of symbolic length)")
+			}
+			phys := ex.tt.Ult(idx, ex.tt.BV(uint64(b.len), 64))
+			if !phys.IsTrue() && !ex.Decide(phys) {
+				panic(pathEnd{kind: "bound", msg: "index into a large symbolic-length buffer beyond its modelled cells"})
+			}
+			return &PtrVal{arr: b.arr, idx: ex.tt.Add(idx, ex.tt.BV(uint64(b.off), 64))}
+		}
 		ex.boundsCheck(idx, b.len, true, "slice")
 		return &PtrVal{arr: b.arr, idx: ex.tt.Add(idx, ex.tt.BV(uint64(b.off), 64))}
 	case *PtrVal: // pointer to array
@@ -404,6 +415,19 @@ func (ex *Exec) sliceOp(fr *Frame, x *ssa.Slice) Value {
 	var str *StrVal
 	switch b := base.(type) {
 	case *SliceVal:
+		if b.symLen != nil {
+			if r, ok := ex.sliceOpSym(fr, x, b); ok {
+				return r
+			}
+			b = ex.mat(b)
+		} else if x.High != nil && x.Max == nil && b.arr != nil {
+			// s[lo:h] with a symbolic h on a concrete slice: keep the length symbolic
+			if ht, isT := ex.get(fr, x.High).(*Term); isT && !ht.IsConst() {
+				if r, ok := ex.sliceOpSymHigh(fr, x, b); ok {
+					return r
+				}
+			}
+		}
 		arr, off, length, capacity = b.arr, b.off, b.len, b.cap
 	case *StrVal:
 		str = b
@@ -467,6 +491,105 @@ func (ex *Exec) sliceOp(fr *Frame, x *ssa.Slice) Value {
 	return &SliceVal{arr: arr, off: off + lo, len: hi - lo, cap: mx - lo}
 }
 
+// sliceOpSym: reslicing a slice of symbolic length. Handles s[lo:] with a concrete lo (the length
+// stays symbolic) and s[lo:h] with concrete bounds inside the modelled cells.
+func (ex *Exec) sliceOpSym(fr *Frame, x *ssa.Slice, b *SliceVal) (Value, bool) {
+	tt := ex.tt
+	if x.Max != nil {
+		return nil, false
+	}
+	lo := 0
+	if x.Low != nil {
+		lt := ex.toInt64Term(ex.get(fr, x.Low).(*Term), x.Low.Type())
+		if !lt.IsConst() {
+			return nil, false
+		}
+		lo = int(int64(lt.val))
+	}
+	if x.High == nil {
+		if lo < 0 {
+			ex.goPanicStr("runtime error: slice bounds out of range")
+		}
+		okc := tt.Ule(ex.intTerm(lo), b.symLen)
+		if !okc.IsTrue() && !ex.Decide(okc) {
+			ex.goPanicStr("runtime error: slice bounds out of range [lo:] (symbolic length)")
+		}
+		if lo > b.len {
+			panic(pathEnd{kind: "bound", msg: "reslice of a large symbolic-length buffer beyond its modelled cells"})
+		}
+		r := &SliceVal{arr: b.arr, off: b.off + lo, len: b.len - lo, cap: b.cap - lo, symLen: tt.Sub(b.symLen, ex.intTerm(lo))}
+		if b.symCap != nil {
+			r.symCap = tt.Sub(b.symCap, ex.intTerm(lo))
+		}
+		return r, true
+	}
+	ht := ex.toInt64Term(ex.get(fr, x.High).(*Term), x.High.Type())
+	if !ht.IsConst() {
+		// s[lo:h] with symbolic h on a symbolic-length slice
+		var capT *Term
+		if b.symCap != nil {
+			capT = b.symCap
+		} else {
+			capT = ex.intTerm(b.cap)
+		}
+		okc := tt.BAnd(tt.Ule(ht, capT), tt.Ule(ex.intTerm(lo), ht))
+		if lo < 0 {
+			ex.goPanicStr("runtime error: slice bounds out of range")
+		}
+		if !okc.IsTrue() && !ex.Decide(okc) {
+			ex.goPanicStr("runtime error: slice bounds out of range [lo:h] (symbolic)")
+		}
+		if lo > b.len {
+			panic(pathEnd{kind: "bound", msg: "reslice of a large symbolic-length buffer beyond its modelled cells"})
+		}
+		r := &SliceVal{arr: b.arr, off: b.off + lo, len: b.len - lo, cap: b.cap - lo, symLen: tt.Sub(ht, ex.intTerm(lo))}
+		if b.symCap != nil {
+			r.symCap = tt.Sub(b.symCap, ex.intTerm(lo))
+		}
+		return r, true
+	}
+	hi := int(int64(ht.val))
+	// hi must be within the capacity
+	var capOK *Term
+	if b.symCap != nil {
+		capOK = tt.Ule(ex.intTerm(hi), b.symCap)
+	} else {
+		capOK = tt.Bool(hi <= b.cap)
+	}
+	if hi < 0 || lo < 0 || lo > hi {
+		ex.goPanicStr("runtime error: slice bounds out of range")
+	}
+	if !capOK.IsTrue() && !ex.Decide(capOK) {
+		ex.goPanicStr("runtime error: slice bounds out of range [:hi] (symbolic capacity)")
+	}
+	if hi > b.len {
+		panic(pathEnd{kind: "bound", msg: "reslice of a large symbolic-length buffer beyond its modelled cells"})
+	}
+	return &SliceVal{arr: b.arr, off: b.off + lo, len: hi - lo, cap: b.cap - lo}, true
+}
+
+// sliceOpSymHigh: s[lo:h] on a concrete slice with symbolic h and concrete lo.
+func (ex *Exec) sliceOpSymHigh(fr *Frame, x *ssa.Slice, b *SliceVal) (Value, bool) {
+	tt := ex.tt
+	lo := 0
+	if x.Low != nil {
+		lt := ex.toInt64Term(ex.get(fr, x.Low).(*Term), x.Low.Type())
+		if !lt.IsConst() {
+			return nil, false
+		}
+		lo = int(int64(lt.val))
+	}
+	if lo < 0 || lo > b.cap {
+		return nil, false
+	}
+	ht := ex.toInt64Term(ex.get(fr, x.High).(*Term), x.High.Type())
+	okc := tt.BAnd(tt.Ule(ht, ex.intTerm(b.cap)), tt.Ule(ex.intTerm(lo), ht))
+	if !okc.IsTrue() && !ex.Decide(okc) {
+		ex.goPanicStr("runtime error: slice bounds out of range [lo:h] (symbolic h)")
+	}
+	return &SliceVal{arr: b.arr, off: b.off + lo, len: b.cap - lo, cap: b.cap - lo, symLen: tt.Sub(ht, ex.intTerm(lo))}, true
+}
+
 func (ex *Exec) makeSlice(fr *Frame, x *ssa.MakeSlice) Value {
 	lt := ex.toInt64Term(ex.get(fr, x.Len).(*Term), x.Len.Type())
 	ct := ex.toInt64Term(ex.get(fr, x.Cap).(*Term), x.Cap.Type())
@@ -483,6 +606,18 @@ func (ex *Exec) makeSliceOf(et types.Type, lt, ct *Term) *SliceVal {
 	if !bad.IsFalse() {
 		if ex.Decide(bad) {
 			ex.goPanicStr("runtime error: makeslice: len out of range")
+		}
+	}
+	if !lt.IsConst() && ct == lt {
+		K := ex.cfg.bigAlloc
+		if _, _, scalar := bvInfo(et); scalar && ex.Decide(tt.Ult(ex.intTerm(K), lt)) {
+			// large allocation: model the first K+1 cells, keep the length symbolic
+			a := &ArrObj{e: make([]Value, K+1), et: et, id: ex.nextID()}
+			z := ex.zero(et)
+			for i := range a.e {
+				a.e[i] = z
+			}
+			return &SliceVal{arr: a, off: 0, len: K + 1, cap: K + 1, symLen: lt, symCap: lt}
 		}
 	}
 	n := int(ex.Concretize(lt, "make len"))
